@@ -67,15 +67,23 @@ def add? (d : Dist) (m : Nat) : Option Dist :=
   else if midToIndex d m < 0 then none
   else if (midToIndex d m).toNat / 8 < d.mask.bin.length then some (add d m) else none
 
-/-- `IsIntersecting(from, to)` -/
+/-- `IsIntersecting(from, to)` (since fix c7b3453: a range whose ends are not ordered as times - they lie on
+different sides of `2^63` - is never pruned) -/
 def isIntersecting (d : Dist) (qf qt : Nat) : Bool :=
   if d.bucket = 0 then true
+  else if midTime qf > midTime qt then true
   else Bitmask.hasBitsIn d.mask.bin (midToIndex d qf).toNat (midToIndex d qt).toNat
 
 def isIntersecting? (d : Dist) (qf qt : Nat) : Option Bool :=
   if d.bucket = 0 then some true
+  else if midTime qf > midTime qt then some true
   else if midToIndex d qf < 0 ∨ midToIndex d qt < 0 then none
   else Bitmask.hasBitsIn? d.mask.bin (midToIndex d qf).toNat (midToIndex d qt).toNat
+
+/-- `IsIntersecting` as it was before fix c7b3453 (kept for the historical counterexample) -/
+def isIntersectingOld (d : Dist) (qf qt : Nat) : Bool :=
+  if d.bucket = 0 then true
+  else Bitmask.hasBitsIn d.mask.bin (midToIndex d qf).toNat (midToIndex d qt).toNat
 
 /-- `GetDist()` as bucket indices (the start of bucket `i` is `from + bucket*(i-1)`) -/
 def setBits (d : Dist) : List Nat :=
@@ -244,7 +252,9 @@ theorem isIntersecting?_eq_some {d : Dist} (h : WF d) (qf qt : Nat) :
   have h3 := (midToIndex_range h qt).1
   have h4 : ¬ (midToIndex d qf < 0 ∨ midToIndex d qt < 0) := by omega
   simp only [h1, h4, if_false]
-  exact Bitmask.hasBitsIn?_eq_some _ _ _ (index_in_slice h qf) (index_in_slice h qt)
+  split
+  · rfl
+  · exact Bitmask.hasBitsIn?_eq_some _ _ _ (index_in_slice h qf) (index_in_slice h qt)
 
 /-- soundness core: a set bit of a MID between the query ends (in int64 reading) makes `IsIntersecting` true -/
 theorem isIntersecting_of_bit {d : Dist} (h : WF d) {qf qt m : Nat}
@@ -253,20 +263,23 @@ theorem isIntersecting_of_bit {d : Dist} (h : WF d) {qf qt m : Nat}
   unfold isIntersecting
   have hne : ¬ (d.bucket = 0) := by have := h.bucket_pos; omega
   simp only [hne, if_false]
-  have m1 := midToIndex_mono h h1
-  have m2 := midToIndex_mono h h2
-  have r1 := (midToIndex_range h qf).1
-  have r2 := (midToIndex_range h m).1
-  rw [Bitmask.hasBitsIn_iff h.bytes _ _ (by omega)]
-  exact ⟨(midToIndex d m).toNat, by omega, by omega, hb⟩
+  split
+  · rfl
+  · have m1 := midToIndex_mono h h1
+    have m2 := midToIndex_mono h h2
+    have r1 := (midToIndex_range h qf).1
+    have r2 := (midToIndex_range h m).1
+    rw [Bitmask.hasBitsIn_iff h.bytes _ _ (by omega)]
+    exact ⟨(midToIndex d m).toNat, by omega, by omega, hb⟩
 
-/-- exactness: `IsIntersecting` is true only if some set bit lies between the indices of the ends -/
+/-- exactness: `IsIntersecting` on time-ordered ends is true only if some set bit lies between their indices -/
 theorem bit_of_isIntersecting {d : Dist} (h : WF d) {qf qt : Nat} (hq : toInt64 qf ≤ toInt64 qt)
     (hi : isIntersecting d qf qt = true) :
     ∃ i, (midToIndex d qf).toNat ≤ i ∧ i ≤ (midToIndex d qt).toNat ∧ Bitmask.bit d.mask.bin i = true := by
   unfold isIntersecting at hi
   have hne : ¬ (d.bucket = 0) := by have := h.bucket_pos; omega
-  simp only [hne, if_false] at hi
+  have hord : ¬ (midTime qf > midTime qt) := by unfold midTime; omega
+  simp only [hne, hord, if_false] at hi
   have m1 := midToIndex_mono h hq
   exact (Bitmask.hasBitsIn_iff h.bytes _ _ (by omega)).1 hi
 
@@ -379,5 +392,25 @@ theorem sameSide_right {qf m qt : Nat} (h1 : qf ≤ m) (_h2 : m ≤ qt) (hs : Sa
   unfold SameSide at *; omega
 
 theorem sameSide_self (m : Nat) : SameSide m m := by unfold SameSide; omega
+
+theorem sameSide_of_ordered {qf qt : Nat} (h : qf ≤ qt) (hqt : qt < 18446744073709551616)
+    (ho : ¬ (midTime qf > midTime qt)) : SameSide qf qt := by
+  unfold SameSide
+  unfold midTime toInt64 at ho
+  split at ho <;> split at ho <;> omega
+
+/-- **soundness in uint64 terms** (the comparison the rest of the store uses): a set bit of a MID `m` with
+`qf ≤ m ≤ qt` makes `IsIntersecting qf qt` true - also when the range crosses `2^63` -/
+theorem isIntersecting_of_bit_u {d : Dist} (h : WF d) {qf qt m : Nat} (h1 : qf ≤ m) (h2 : m ≤ qt)
+    (hqt : qt < 18446744073709551616)
+    (hb : Bitmask.bit d.mask.bin (midToIndex d m).toNat = true) : isIntersecting d qf qt = true := by
+  by_cases ho : midTime qf > midTime qt
+  · unfold isIntersecting
+    have hne : ¬ (d.bucket = 0) := by have := h.bucket_pos; omega
+    simp only [hne, ho, if_true, if_false]
+  · have hs := sameSide_of_ordered (Nat.le_trans h1 h2) hqt ho
+    exact isIntersecting_of_bit h
+      (toInt64_mono_of_sameSide h1 (by omega) (sameSide_left h1 h2 hs))
+      (toInt64_mono_of_sameSide h2 hqt (sameSide_right h1 h2 hs)) hb
 
 end SV.Dist
